@@ -29,7 +29,7 @@ method = XPath31Parser.method
 function = XPath31Parser.function
 
 register('map', bp=90, label=('kind test', 'map'), bases=(XPathFunction,),
-         pattern=r'(?<!\$)\bmap(?=\s*(?:\(\:.*\:\))?\s*(?=\(|\{)(?!\:))')
+         pattern=r'(?<!\$)\bmap(?=\s*(?:\(\:(?s:.*)\:\))?\s*(?=\(|\{)(?!\:))')
 
 
 @method('map')
@@ -61,7 +61,7 @@ def nud__map_sequence_type_or_constructor(self: XPathFunction) \
 
 
 register('array', bp=90, label=('kind test', 'array'), bases=(XPathFunction,),
-         pattern=r'(?<!\$)\barray(?=\s*(?:\(\:.*\:\))?\s*(?=\(|\{)(?!\:))')
+         pattern=r'(?<!\$)\barray(?=\s*(?:\(\:(?s:.*)\:\))?\s*(?=\(|\{)(?!\:))')
 
 
 @method('array')
@@ -128,7 +128,10 @@ class LookupOperatorToken(XPathToken):
 
     def __init__(self, parser: ta.XPathParserType, value: ta.AtomicType | None = None) -> None:
         super().__init__(parser, value)
-        if self.parser.token.symbol in ('(', ','):
+        previous = getattr(self.parser, 'before_comment', None)
+        if previous is None:
+            previous = self.parser.token
+        if previous.symbol in ('(', ','):
             # It's a placeholder symbol or a unary lookup operator
             # in a list of function arguments.
             self.lbp = self.rbp = 0
